@@ -269,10 +269,14 @@ PROPS = {
         ],
         model_limits='records are decoded values (address, height, integer); the key shapes enter through decPrefix/keyLt (decimal prefix and byte order of <height>_<addr>), tied to the real stores by the piter/rwiter steps; the fee pool, the rewards pool and validator rewards are not part of this model (C02/C13); the model branch poolMinus (pool cannot pay an undelegation) is proved unreachable (undelegate_own_active_always_succeeds) and is therefore not exercised by the correspondence'),
     'C15': dict(
-        lean_modules=['OLP.Props.C15', 'OLP.Props.C15Arith'], namespaces=['OLP.Props.C15'],
+        # OLP.Props.C15Arith (T2 tie: threshold_is_source_finalized / _failed over the generated OLP.Gen.Arith)
+        # lives in /verif; a slice workspace whose extractor does not emit Gen/Arith runs without it
+        lean_modules=['OLP.Props.C15', 'OLP.Props.C15Arith'],
+        namespaces=['OLP.Props.C15'],
         required_theorems=['vote_only_own_slot_once', 'nonwitness_vote_does_not_count', 'wrong_index_does_not_count', 'second_vote_refused',
                            'yes_count_monotone', 'no_count_monotone', 'threshold_is_more_than_two_thirds', 'never_both_decided',
-                           'wf_reachable', 'endBlock_never_panics', 'block_end_moves_no_value', 'cleanup_moves_released', 'cleanup_moves_failed',
+                           'wf_reachable', 'endBlock_never_panics', 'block_end_is_a_function_of_chain_state', 'block_end_moves_no_value',
+                           'block_end_archives_every_decided_tracker', 'transition_depends_on_record_only', 'cleanup_moves_released', 'cleanup_moves_failed',
                            'mint_requires_two_thirds_and_locked_amount', 'mint_to_submitter', 'report_ignores_the_locker_field',
                            'mint_credits_the_tracker_owner', 'lying_report_is_harmless', 'mint_at_most_once', 'never_ongoing_and_completed',
                            'same_external_tx_one_tracker', 'erc20_redeem_after_failed_redeem_is_refused',
@@ -286,11 +290,11 @@ PROPS = {
         assumptions=[
             'the witness list is fixed at genesis and holds no address twice (witness records are keyed by address; nothing adds a witness after InitChain) — hypothesis Cfg.WF of the theorems',
             'an external (Ethereum) transaction is identified with the tracker name the code derives from it (the trailing 32 bytes of the submitted raw transaction, i.e. the S value of its signature); the signed transaction kept in a tracker is abstracted to the amount the repo\'s parser reads from it, its currency, and whether it is addressed to a listed token contract; the harness decodes those independently (go-ethereum RLP decoder + ABI layout) from every stored record',
-            'block-end transitions: which trackers doEthTransitions visits (names already in the committed tree) and whether a transition function fails on the node\'s job store enter the model as inputs of the endBlock operation; every theorem holds for all such inputs',
-            'the model follows the repaired code (0a509b2 mint to tracker.ProcessOwner, 9de5f06 existence checks in runERC20Lock, efdfa81 failed-store check in runERC20Reddem): mint_to_submitter, mint_at_most_once and same_external_tx_one_tracker are proved at full strength; the former counterexample histories are regression examples in Lean and scripted regression scenarios (-2 … -5) in the engine, whose monitors (mint-credits-reports-locker-not-submitter, erc20-lock-resubmission-accepted, duplicate-submission-accepted-after-failure, name-in-two-stores, regression-scenario-outcome; none listed in known_findings.json) make a regression a VIOLATION',
+            'block end: which trackers doEthTransitions visits (State.IterateRange enumerates the keys of the committed tree, minus pending deletes) enters the model as the `names` argument of the endBlock operation — chain state as well; since 7ff9062 the transition functions do not depend on the node-local job store, so the model has no witness-role / job-error input any more; the engine checks it on witness and non-witness nodes and on nodes whose witness role flips mid-history; failures of the node\'s job database itself (SaveJob / DeleteJob I/O errors) are outside the model',
+            'the model follows the repaired code (0a509b2 mint to tracker.ProcessOwner, 9de5f06 existence checks in runERC20Lock, efdfa81 failed-store check in runERC20Reddem, 11ae9db malformed payloads refused, 7ff9062 block end independent of the job store): mint_to_submitter, mint_at_most_once and same_external_tx_one_tracker are proved at full strength; the former counterexample histories are regression examples in Lean and scripted regression scenarios (-2 … -5) in the engine, whose monitors (mint-credits-reports-locker-not-submitter, erc20-lock-resubmission-accepted, duplicate-submission-accepted-after-failure, name-in-two-stores, regression-scenario-outcome; none listed in known_findings.json) make a regression a VIOLATION',
             'one _partial theorem remains: supply_eq_circulation_partial needs that no submitter / SEND sender / SEND receiver is the supply address itself — a fact of the signature and validation layer (nobody holds a key for that 22-byte address, Send.Validate refuses it), which this model does not contain',
         ],
-        model_limits='Validate/fee handling of the five transaction kinds, the Ethereum side (whether the external transaction exists and is final: the witnesses\' off-chain jobs) and the job store are outside the model; negative VoteIndex, a contract-creation payload, a redeem payload without the selector and an ERC20 lock whose transfer receiver is not the ERC contract panic in the handlers (modelled as Res.panic, never sent by this engine: C18); the supply cap is checked at submission only, not at mint; an ERC20 redeem addressed to the ERC contract can never be finalized (burnERC20Tokens looks the token up by tx.To()) and a failing ERC20 tracker is never archived — modelled as in the code, liveness is not part of the property'),
+        model_limits='Validate/fee handling of the five transaction kinds, the Ethereum side (whether the external transaction exists and is final: the witnesses\' off-chain jobs) and the job store are outside the model; a negative VoteIndex panics in AddVote but is refused by Validate, which DeliverTx now runs (modelled as Res.panic, never sent by this engine: C18); malformed payloads (undecodable, contract creation, selector missing, wrong receiver) are refused since 11ae9db and are part of the generated histories; the supply cap is checked at submission only, not at mint; an ERC20 redeem addressed to the ERC contract can never be finalized (burnERC20Tokens looks the token up by tx.To()) and a failing ERC20 tracker is never archived — modelled as in the code, liveness is not part of the property'),
     'C11': dict(
         lean_modules=['OLP.Props.C11'], namespaces=['OLP.Props.C11'],
         required_theorems=['frozen_blocks_all_three', 'frozen_owner_cannot_withdraw', 'pending_allegation_blocks_unstake', 'withdraw_needs_bounded',
